@@ -195,6 +195,12 @@ def build(F):
                             sigs=['book,title'] if sig else []))
     if 's_routing' in F:
         methods[0]['routing'] = [dict(field='name', tmpl='{shelf_id=shelves/*}/books/*'), dict(field='name', tmpl='{full=**}')]
+    if 'f_deppkg' in F:
+        # own request message, reply type from the dependency package (a plain protobuf class): request and reply are of
+        # different message flavours
+        msgs.append(dict(name='FetchDepRequest', fields=[dict(name='name')]))
+        methods.append(dict(name='FetchDep', **{'in': 'FetchDepRequest', 'out': '.other.dep.v1.Dep'},
+                            http=http('get', '/v1/{name=deps/*}'), sigs=['name'] if sig else []))
     if 'f_deppkg' in F and 'm_dep_request' in F:
         methods.append(dict(name='CheckDep', **{'in': '.other.dep.v1.DepReq', 'out': '.other.dep.v1.Dep'},
                             http=http('post', '/v1/{name=deps/*}:check', '*'), sigs=['name'] if sig else []))
